@@ -276,7 +276,7 @@ def check_pair(A, B, truth, ctx, probe, rng, level=1, modes=None):
                 rho = dense.ket2dm(dense.graph_state_vec(A))
                 for g in gl:
                     rho = dense.gate(rho, GATE[g[0]], [int(g[1])], n)
-                if not np.allclose(rho, dense.ket2dm(dense.graph_state_vec(B)), atol=1e-9):
+                if not np.allclose(rho, dense.ket2dm(dense.graph_state_vec(B)), atol=1e-9, rtol=0):
                     ctx.violation("converter_gate_list_wrong_dense", case, {"gates": [list(map(str, g)) for g in gl]}, key="lc_gates_wrong")
         except Exception as e:
             ctx.violation("converter_gate_list_raises", case, {"exception": f"{type(e).__name__}: {e}"[:300]}, key="lc_gates_exc")
